@@ -209,11 +209,15 @@ class Hist:
                     raise
                 self.problems.append(('refused', self.rep(real_op='prelude %s' % owt, error=str(e)[:100])))
                 self.w.session.rollback()
+        self.accounts_net = accounts_net
+        force_second_net = self.defacct == 0 and bool(other_net) and self.hseed % 2 == 0
         for step in range(self.nops):
             if self.problems and any(p[0] != 'refused' for p in self.problems):
                 break
             w = self.w
             r = rng.random()
+            if force_second_net and step == 1 and not accounts_net:
+                r = 0.91            # (the branch that adds an account on another network)
             acct = rng.choice(accounts)
             wt = self.wt if rng.random() < 0.75 else rng.choice(other_wt)
             net = self.net
@@ -352,6 +356,22 @@ class Hist:
             key = wt + str(NETS[net]) + str(acct) + str(chg)
             if key not in explicit and sorted(idxs) != list(range(len(idxs))):
                 self.problems.append(('gap', self.rep(chain=(wt, net, acct, chg), observed=sorted(idxs))))
+        # ---- the account public key of every network of the wallet ---------------------------------------------------------------
+        for onet, accts in sorted(getattr(self, 'accounts_net', {}).items()):
+            for acct in accts:
+                try:
+                    pm = w.public_master(account_id=acct, network=onet)
+                    self.check_account_key(pm, self.wt, onet, acct, 'public_master(account_id=%d, network=%s)' % (acct, onet))
+                    w3 = Wallet.create('re_net_%s_%d' % (onet, acct), keys=pm.wif, witness_type=self.wt, network=onet, db_uri=self.db)
+                    mine = sorted((k.change, k.address_index, k.address) for k in leaves if k.witness_type == self.wt and k.account_id == acct and k.network_name == onet)
+                    ctx.count('recreate:account-xpub-second-network')
+                    for chg, idx, addr in mine:
+                        k3 = w3.key_for_path([chg, idx])
+                        if k3.address != addr:
+                            self.problems.append(('recreate', self.rep(variant='account-xpub of network %s' % onet, change=chg, index=idx, observed=k3.address, expected=addr)))
+                            break
+                except Exception as e:
+                    self.problems.append(('recreate', self.rep(variant='account-xpub of network %s' % onet, error=repr(e)[:160])))
         # ---- re-creation ---------------------------------------------------------------------------------------------------
         mine0 = sorted((k.address_index, k.address) for k in leaves if k.witness_type == self.wt and k.account_id == self.defacct and k.change == 0 and k.network_name == self.net)
         mine1 = sorted((k.address_index, k.address) for k in leaves if k.witness_type == self.wt and k.account_id == self.defacct and k.change == 1 and k.network_name == self.net)
